@@ -121,13 +121,16 @@ def fill_depressions(
             z1 = elevtn[r, c]
             dz = z0 - z1  # local depression if dz > 0
             if max_depth >= 0:  # if positive max_depth: don't fill when dz > max_depth
-                if dz >= max_depth:
+                if dz > 0 and dz >= max_depth:  # only local depressions (dz > 0)
                     heapq.heappush(
                         q, (np.float64(z1), np.uint8(0), np.uint32(r), np.uint32(c))
                     )
                     queued[r, c] = True
-                    for dr, dc in zip(drs, dcs):  # (re)visit neighbors
-                        done[r + dr, c + dc] = False
+                    for dr1, dc1 in zip(drs, dcs):  # (re)visit neighbors inside the raster
+                        r1, c1 = r + dr1, c + dc1
+                        if r1 < 0 or r1 >= nrow or c1 < 0 or c1 >= ncol:
+                            continue
+                        done[r1, c1] = False
                     continue
                 elif delv[r, c] > 0:  # reset cell if previously filled & revisited
                     queued[r, c] = False
